@@ -3,6 +3,7 @@
 // verification on a fresh context with a freshly parsed copy.
 #include "netsim.hpp"
 #include "sigmut.hpp"
+#include "seeds.hpp"
 extern "C" {
 #include <ksi/signature_builder.h>
 #include <ksi/hashchain.h>
@@ -28,17 +29,22 @@ struct Extender { std::map<uint64_t, std::pair<Bytes, uint64_t>> roots; /* aggre
 static Extender g_ext;
 static void setupCtx(KSI_CTX *ctx) { KSI_CTX_setExtender(ctx, "ksi+tcp://ext.example.test:4444", kLogin.c_str(), kKey.c_str()); }
 
-static VRes doVerify(KSI_CTX *ctx, KSI_Signature *sig, const Bytes &doc, const VArgs &a) {
-    VRes r{KSI_UNKNOWN_ERROR, -1, -1}; KSI_VerificationContext vc; KSI_VerificationContext_init(&vc, ctx); vc.signature = sig; vc.docAggrLevel = a.level; vc.extendingAllowed = a.extending; KSI_DataHash *dh = nullptr;
+static VRes doVerify(KSI_CTX *ctx, KSI_Signature *sig, const Bytes &doc, const VArgs &a, KSI_PublicationsFile *upf = nullptr) {
+    VRes r{KSI_UNKNOWN_ERROR, -1, -1}; KSI_VerificationContext vc; KSI_VerificationContext_init(&vc, ctx); vc.signature = sig; vc.userPublicationsFile = upf; vc.docAggrLevel = a.level; vc.extendingAllowed = a.extending; KSI_DataHash *dh = nullptr;
     if (a.hashMode) { Bytes h = doc; if (a.hashMode == 2) h[h.size() - 1] ^= 1; KSI_DataHash_fromImprint(ctx, h.data(), h.size(), &dh); vc.documentHash = dh; }
     KSI_PolicyVerificationResult *pr = nullptr; r.res = KSI_SignatureVerifier_verify(policyNo(a.policy), &vc, &pr); if (r.res == KSI_OK && pr) { r.result = pr->finalResult.resultCode; r.error = pr->finalResult.errorCode; }
-    KSI_PolicyVerificationResult_free(pr); KSI_VerificationContext_clean(&vc); KSI_DataHash_free(dh); return r;
+    KSI_PolicyVerificationResult_free(pr); vc.userPublicationsFile = nullptr; KSI_VerificationContext_clean(&vc); KSI_DataHash_free(dh); return r;
 }
-static VRes freshVerify(const Bytes &enc, const Bytes &doc, const VArgs &a) { Ctx ctx; setupCtx(ctx); HeapBuf in(enc); KSI_Signature *s = nullptr; VRes r{KSI_UNKNOWN_ERROR, -1, -1}; if (KSI_Signature_parseWithPolicy(ctx, in.p, in.n, KSI_VERIFICATION_POLICY_EMPTY, nullptr, &s) != KSI_OK) return r; r = doVerify(ctx, s, doc, a); KSI_Signature_free(s); return r; }
+static VRes freshVerify(const Bytes &enc, const Bytes &doc, const VArgs &a, const Bytes &pubFile = Bytes()) { Ctx ctx; setupCtx(ctx); HeapBuf in(enc); KSI_Signature *s = nullptr; VRes r{KSI_UNKNOWN_ERROR, -1, -1}; if (KSI_Signature_parseWithPolicy(ctx, in.p, in.n, KSI_VERIFICATION_POLICY_EMPTY, nullptr, &s) != KSI_OK) return r;
+    KSI_PublicationsFile *pf = nullptr; if (!pubFile.empty()) { HeapBuf fb(pubFile); KSI_PublicationsFile_parse(ctx, fb.p, fb.n, &pf); } r = doVerify(ctx, s, doc, a, pf); KSI_PublicationsFile_free(pf); KSI_Signature_free(s); return r; }
 
 static void runHistory(Dec d /* by value: both cache configurations replay the same choices */, Case &c, int cacheSize, std::string &trace) {
     resetSim(); g_ext = Extender(); Server srv; srv.respond = [&](const Bytes &req, int) { return g_ext.respond(req); }; srv.attach();
     Ctx ctx; setupCtx(ctx); if (cacheSize >= 0) KSI_CTX_setOption(ctx, KSI_OPT_DATAHASH_CACHE_SIZE, (void *)(size_t)cacheSize);
+    // a user-supplied publications file holding the publication records of the pool signatures (rebuilt when one is added); the PKCS#7 element is taken from a repository sample and never checked (user-supplied files are not PKI-verified)
+    std::vector<std::pair<uint64_t, Bytes>> pubSpecs; Bytes pubFileBytes; KSI_PublicationsFile *upf = nullptr; static Bytes pkiEl; if (pkiEl.empty()) for (size_t si : seedsOf(SK_PUBFILE)) { const Seed &sd = seeds()[si]; if (sd.path.find("publications.tlv") == std::string::npos || sd.path.find("fake") != std::string::npos) continue; std::vector<Tlv> tops; if (decodeList(sd.data.data() + 8, sd.data.size() - 8, tops)) for (auto &e : tops) if (e.tag == 0x704) pkiEl = e.enc(); }
+    auto rebuildPubFile = [&]() { KSI_PublicationsFile_free(upf); upf = nullptr; pubFileBytes.clear(); if (pubSpecs.empty() || pkiEl.empty()) return; static const char m[] = "KSIPUBLF"; pubFileBytes.assign(m, m + 8); Tlv h(0x701); h.add(Tlv::u64(0x01, 2)); h.add(Tlv::u64(0x02, 1400000000)); h.encode(pubFileBytes);
+        for (auto &p : pubSpecs) { PubRecord r; r.data.time = p.first; r.data.hash = p.second; r.toTlv(0x703).encode(pubFileBytes); } pubFileBytes.insert(pubFileBytes.end(), pkiEl.begin(), pkiEl.end()); HeapBuf fb(pubFileBytes); if (KSI_PublicationsFile_parse(ctx, fb.p, fb.n, &upf) != KSI_OK) { upf = nullptr; pubFileBytes.clear(); } };
     KSI_VerificationContext sharedVc; KSI_VerificationContext_init(&sharedVc, ctx); sharedVc.extendingAllowed = 1; // one caller-owned context object reused by several calls: the SDK must not leave anything in it
     Chooser ch{[&](uint32_t n) { return d.pick(n); }, [&]() { return d.byte(); }}; std::vector<Live> pool; unsigned nops = 2 + d.pick(d.pick(4) == 0 ? 40 : 14); int verifies = 0, derives = 0; std::set<std::string> verdictKinds;
     auto allIntact = [&](const std::string &after) { for (size_t i = 0; i < pool.size() && !c.fail; i++) { Bytes now = serializeSig(pool[i].sig); if (now != pool[i].birth) VF_FAIL(c, "C11:serialization-changed:after-" + after.substr(0, after.find(' ')), "signature " + num((long long)i) + " (" + pool[i].origin + ") no longer serializes to its birth bytes after: " + after + " | history: " + trace); } };
@@ -53,18 +59,19 @@ static void runHistory(Dec d /* by value: both cache configurations replay the s
         if (res != KSI_OK) { trace += "parse(" + kind + ")=refused "; return; } Live l{sig, enc, s.docHash(), kind, o.calSalt}; Verdict v = evaluate(s); if (v.aggrRoot.size()) g_ext.roots[s.chains[0].aggrTime] = {v.aggrRoot, o.calSalt}; if (o.t + 100000 > g_ext.head) g_ext.head = o.t + 100000;
         // a parsed signature given in canonical encoding re-serializes to exactly the bytes it was parsed from
         Bytes now = serializeSig(sig); if (now != enc) { VF_FAIL(c, "C11:parse-serialize-not-identity", "canonical input does not re-serialize identically (" + kind + ")"); KSI_Signature_free(sig); return; }
+        if (s.hasPub && v.consistent() && pubSpecs.size() < 6) { bool dup = false; for (auto &p : pubSpecs) if (p.first == s.pub.data.time) dup = true; if (!dup) { pubSpecs.push_back({s.pub.data.time, s.pub.data.hash}); rebuildPubFile(); } }
         pool.push_back(l); trace += "parse(" + kind + (s.hasRfc ? ",rfc" : "") + ") "; c.cls(kind == "consistent" ? "pool:consistent" : "pool:inconsistent"); if (s.hasRfc) c.cls("pool:legacy"); };
     addParsed();
     for (unsigned step = 0; step < nops && !c.fail; step++) {
-        if (pool.empty()) { addParsed(); continue; } unsigned op = d.pick(13); size_t i = d.pick((uint32_t)pool.size()); std::string what;
+        if (pool.empty()) { addParsed(); continue; } unsigned op = d.pick(15); if (op == 14) op = 13; size_t i = d.pick((uint32_t)pool.size()); std::string what;
         switch (op) {
         case 0: if (pool.size() < 4) { addParsed(); what = "parse"; } break;
         case 1: { KSI_Signature *cl = nullptr; int res = KSI_Signature_clone(pool[i].sig, &cl); what = "clone " + num((long long)i); if (res != KSI_OK) { VF_FAIL(c, "C11:clone-failed", "clone failed res=" + num(res)); break; } Bytes cb = serializeSig(cl); if (cb != pool[i].birth) VF_FAIL(c, "C11:clone-serializes-differently", "clone of signature " + num((long long)i) + " serializes differently | " + trace);
             if (pool.size() < 4) { Live l = pool[i]; l.sig = cl; l.origin = "clone of " + pool[i].origin; pool.push_back(l); } else KSI_Signature_free(cl); trace += what + " "; break; }
         case 2: case 3: case 4: case 5: case 6: { VArgs a; a.policy = d.pick(3) == 0 ? (int)d.pick(7) : 0; a.hashMode = (int)d.pick(3); static const uint64_t lv[] = {0, 0, 1, 3, 200, 255, 256, 0x100000000ULL}; a.level = lv[d.pick(8)]; a.extending = d.flag();
-            VRes got = doVerify(ctx, pool[i].sig, pool[i].doc, a); what = "verify " + num((long long)i) + " p" + num(a.policy) + " h" + num(a.hashMode) + " l" + std::to_string(a.level) + "=" + num(got.res) + "/" + num(got.result) + "/" + num(got.error); trace += what + " "; verifies++; verdictKinds.insert(num(got.res) + "/" + num(got.result));
+            bool withFile = upf && d.flag(); VRes got = doVerify(ctx, pool[i].sig, pool[i].doc, a, withFile ? upf : nullptr); if (withFile) c.cls("verify:with-user-publications-file"); what = "verify " + num((long long)i) + " p" + num(a.policy) + " h" + num(a.hashMode) + " l" + std::to_string(a.level) + "=" + num(got.res) + "/" + num(got.result) + "/" + num(got.error); trace += what + " "; verifies++; verdictKinds.insert(num(got.res) + "/" + num(got.result));
             // the same verification on a fresh context with a freshly parsed copy (the simulated network is stateless, so it may be shared)
-            VRes want = freshVerify(pool[i].birth, pool[i].doc, a);
+            VRes want = freshVerify(pool[i].birth, pool[i].doc, a, withFile ? pubFileBytes : Bytes());
             if (!(got == want)) VF_FAIL(c, "C11:verdict-differs-from-fresh-context:p" + num(a.policy), "verification on the shared context gave " + num(got.res) + "/" + num(got.result) + "/0x" + hex((const uint8_t *)&got.error, 2) + ", the same verification on a fresh context " + num(want.res) + "/" + num(want.result) + "/0x" + hex((const uint8_t *)&want.error, 2) + " | history: " + trace);
             break; }
         case 11: { // verifyWithPolicy through the shared, caller-owned verification context
@@ -75,6 +82,13 @@ static void runHistory(Dec d /* by value: both cache configurations replay the s
                     want = KSI_Signature_verifyWithPolicy(s2, d2, a.level, policyNo(a.policy), &v2); KSI_DataHash_free(d2); KSI_VerificationContext_clean(&v2); } KSI_Signature_free(s2);
                 if (got != want) VF_FAIL(c, "C11:shared-context-verdict-differs:p" + num(a.policy), "verifyWithPolicy through a reused verification context returned " + num(got) + ", with a fresh context and fresh objects " + num(want) + " | history: " + trace); }
             KSI_DataHash_free(dh); break; }
+        case 13: { // extend to a publication record that belongs to somebody else (another signature of the pool, or the publications file); the result is dropped at once
+            KSI_PublicationRecord *rec = nullptr; bool fromFile = upf && d.flag(); bool owned = false; size_t j = d.pick((uint32_t)pool.size());
+            if (fromFile) { KSI_Integer *t0 = nullptr; KSI_Signature_getSigningTime(pool[i].sig, &t0); if (KSI_PublicationsFile_getNearestPublication(upf, t0, &rec) == KSI_OK && rec) owned = true; } else KSI_Signature_getPublicationRecord(pool[j].sig, &rec);
+            what = std::string("extend-to-borrowed-record ") + num((long long)i) + (fromFile ? " from-file" : " from-sig" + num((long long)j)); if (!rec) { trace += what + "(none) "; break; }
+            KSI_Signature *ext = nullptr; int res = KSI_Signature_extend(pool[i].sig, ctx, rec, &ext); what += "=" + num(res); trace += what + " "; derives++; c.cls("derive:extend-to-borrowed-record"); KSI_Signature_free(ext); if (owned) KSI_PublicationRecord_free(rec);
+            for (int k = 0; k < 3; k++) { KSI_DataHash *tmp = nullptr; Bytes hb(33, (uint8_t)(0x50 + k)); hb[0] = 1; KSI_DataHash_fromImprint(ctx, hb.data(), hb.size(), &tmp); KSI_DataHash_free(tmp); } // objects handed back to the context's pools are reused
+            break; }
         case 7: { unsigned char *raw = nullptr; size_t n = 0; KSI_Signature_serialize(pool[i].sig, &raw, &n); KSI_free(raw); what = "serialize " + num((long long)i); trace += what + " "; break; }
         case 8: { // extend (derive): source must stay untouched
             KSI_Signature *ext = nullptr; KSI_Integer *to = nullptr; if (d.flag()) { Sig m; std::string e; if (decodeSig(pool[i].birth, m, e)) KSI_Integer_new(ctx, m.chains[0].aggrTime + 1 + d.pick(5000), &to); } int res = KSI_Signature_extendTo(pool[i].sig, ctx, to, &ext); KSI_Integer_free(to); what = "extend " + num((long long)i) + "=" + num(res); trace += what + " "; derives++;
@@ -92,7 +106,7 @@ static void runHistory(Dec d /* by value: both cache configurations replay the s
         }
         if (!c.fail) allIntact(what.empty() ? "step" : what);
     }
-    for (auto &l : pool) KSI_Signature_free(l.sig); sharedVc.signature = nullptr; KSI_VerificationContext_clean(&sharedVc);
+    for (auto &l : pool) KSI_Signature_free(l.sig); sharedVc.signature = nullptr; KSI_VerificationContext_clean(&sharedVc); KSI_PublicationsFile_free(upf);
     if (verifies >= 2 && verdictKinds.size() >= 2) c.cls("history:verifies-with-different-outcomes"); if (derives) c.cls("history:with-derive-operation"); c.nontrivial = (verifies >= 2 && verdictKinds.size() >= 2) || derives > 0;
 }
 
